@@ -38,7 +38,7 @@ import (
 
 var c20Specs = []string{"v1", "v2",
 	// valid variants of optional webhook fields: each must start
-	"etag-enabled", "etag-timeout-only", "etag-cleanup-only", "etag-full", "timeout-zero", "timeout-negative", "strict", "service-path",
+	"etag-enabled", "etag-timeout-only", "etag-cleanup-only", "etag-full", "timeout-zero", "timeout-negative", "strict", "service-path", "resync-zero", "resync-negative", "revision-history-empty",
 	// configurations that cannot start
 	"INVALID-unknown-parent", "INVALID-unknown-child", "INVALID-no-hooks", "INVALID-webhook-empty", "INVALID-service-noname", "INVALID-bad-selector", "INVALID-crd-without-status", "INVALID-crd-missing"}
 
@@ -66,6 +66,12 @@ func c20Spec(name, id string) v1alpha1.CompositeControllerSpec {
 		wh.Timeout = &metav1.Duration{Duration: 0}
 	case "timeout-negative":
 		wh.Timeout = &metav1.Duration{Duration: -time.Second}
+	case "resync-zero":
+		spec.ResyncPeriodSeconds = i32(0)
+	case "resync-negative":
+		spec.ResyncPeriodSeconds = i32(-5)
+	case "revision-history-empty":
+		spec.ParentResource.RevisionHistory = &v1alpha1.CompositeControllerRevisionHistory{}
 	case "strict":
 		m := v1alpha1.ResponseUnmarshallModeStrict
 		wh.ResponseUnmarshallMode = &m
